@@ -142,6 +142,13 @@ func c01Classify(q []c01Stmt) (cmp string, untr []c01Stmt) {
 		if lastCount > lastSel {
 			return "rows", nil // …limit(2).count(): determined by the bounds arithmetic
 		}
+		if lastCount >= 0 {
+			// …limit(2).count().limit(1): the count row itself is determined by the arithmetic, so
+			// the reference for the sub-multiset test keeps everything up to the last count and
+			// drops only the selection steps after it (count is not monotone in its input).
+			ref := append([]c01Stmt{}, q[:first+lastCount+1]...)
+			return "nsub", ref
+		}
 		return "nsub", untr
 	}
 	if monotone {
